@@ -37,6 +37,8 @@ func init() {
 			{ID: "R09o", Floor: 10, Doc: "no NEW unchecked type assertion: a single-value `x.(T)` in the library panics when the dynamic type is another one (an index of the other codec, a reader without the method); the sites of the pinned tree are tabled (typeAssertBaseline), any other must use the comma-ok form", Run: ruleR09o},
 			{ID: "R09p", Floor: 2, Doc: "ReadOnly.AllKeysChan and ReadOnly.Roots decode the payload header in the call that uses it and test the error first: a header taken from a cache another call was meant to fill can be nil", Run: ruleR09p},
 			{ID: "R09q", Floor: 1, Doc: "no command of the CLI changes a parser limit for itself: the default bounds are what keeps a crafted length prefix from being allocated (= R19i)", Run: ruleR19i},
+			{ID: "R09r", Floor: 1, Doc: "no reader type beside the audited ones: a new type of the library that declares Read/ReadByte/Seek is where a (0, nil) spin or an unbounded read comes from (= R16n)", Run: ruleR16n},
+			{ID: "R09s", Floor: 1, Doc: "the read methods of the stores allocate no slice of a computed length themselves: the size store.FindCid reports without reading is unchecked (possibly negative, possibly what a crafted length prefix asks for)", Run: ruleR09s},
 			{ID: "R09f", Floor: 1, Doc: "singleWidthIndex.Unmarshal: bucket bytes come from an exact-length read of dataLen with its error tested", Run: ruleR09f},
 			{ID: "R09m", Floor: 2, Doc: "the CARv2 payload is read through a reader bounded by the header-declared size that can never run negative or past the source (= R14a)", Run: ruleR14a},
 			{ID: "R09n", Floor: 1, Doc: "a reader that has released its pooled buffer does not touch it again: the field is cleared with the release (polling a drained reader once more must answer io.EOF, not panic in bufio) (= R01m)", Run: ruleR01m},
